@@ -11,7 +11,8 @@ Inductive jop :=
 | OSearch (prog : list stmt) (found : list nat)
 | OList (found : list nat)
 | ODelete (job : nat)
-| ORestart.
+| ORestart
+| OSpool (workers : nat) (sent got : list nat).   (* MarshalStream |> UnmarshalStream with that many workers: item ids in, ids out *)
 Record c11_case := { jgraph : graph; jhistory : list jop; jfailed : bool }.
 
 Definition rows_ok (g : graph) (p : list stmt) (o : outcome) : bool := agrees {| cgraph := g; cprog := p; cobs := o |}.
@@ -81,6 +82,8 @@ Fixpoint check (g : graph) (ops : list jop) (i : nat) (t : jtable) : bool :=
       | OList found => (if list_eq_dec Nat.eq_dec (map fst t) found then true else false) && check g r (S i) t
       | ODelete j => check g r (S i) (jstep t (ADelete j))
       | ORestart => check g r (S i) (jstep t ARestart)
+      | OSpool n sent got =>
+          (if list_eq_dec Nat.eq_dec (merge (List.length sent + 2) (deal n sent)) got then true else false) && check g r (S i) t
       end
   end.
 Notation "a +:+ b" := (cons a b) (at level 41, right associativity, only parsing).
@@ -111,6 +114,8 @@ Fixpoint trace (g : graph) (ops : list jop) (i : nat) (t : jtable) : list bool :
       | OList found => (if list_eq_dec Nat.eq_dec (map fst t) found then true else false) +:+ trace g r (S i) t
       | ODelete j => true +:+ trace g r (S i) (jstep t (ADelete j))
       | ORestart => true +:+ trace g r (S i) (jstep t ARestart)
+      | OSpool n sent got =>
+          (if list_eq_dec Nat.eq_dec (merge (List.length sent + 2) (deal n sent)) got then true else false) +:+ trace g r (S i) t
       end
   end.
 Definition agrees11 (c : c11_case) : bool := negb (jfailed c) && check (jgraph c) (jhistory c) 0 [].
